@@ -230,6 +230,7 @@ PROPS["C12"] = dict(
 )
 
 PROPS["C08"] = dict(
+    oom_probe=dict(test="TestC08One", env="VERIF_C08_ONE"),  # isolated re-execution of the last traced decode after an out-of-memory death
     alloc_is_property=True,  # a worker that exhausts its address-space limit (twice, second time alone) is a violation, not machine trouble
     level="fault_enumeration",
     engine="medium",
